@@ -13,6 +13,18 @@ R19.4b payload values are encoded at call time (inside the encoder)
 R19.7  the mapping in which Slot/Node.__init__ convert compact core / GPU
        entries is the one the base constructor receives; no argument of
        higher precedence carries the same input unconverted
+R19.8  the test of each alias unit, evaluated over the set values of the
+       deprecated attribute's schema type, its default and its reset value:
+       passes for all of the former, for none of the latter
+R19.9  each payload value the decoder reads is computed from a parameter of
+       the encoder for every set argument (`x and <literal>`, the wrapper
+       itself, a module level object are not); no parameter is used twice
+       while another reaches no entry
+R19.10 where a slot converter takes an entry apart, RO(index=, occupation=)
+       get the part of that name / of that position in RO._schema order; the
+       old format is built from the index
+R19.11 Slot/Node.__init__ convert each kind (cores, gpus) under tests on that
+       kind only (presence of the entries decided, other tests open)
 """
 
 import ast
@@ -191,13 +203,49 @@ ALIAS_SPEC = {'cpu_processes'  : 'ranks',
               'worker_class'   : 'raptor_class'}
 
 
+DEPRECATED = set(ALIAS_SPEC) | {'gpu_process_type'}
+
+
+def _prefix_defs(prefix):
+    defs = {}
+    for a in prefix:
+        if isinstance(a, ast.Assign) and len(a.targets) == 1 and \
+                isinstance(a.targets[0], ast.Name):
+            defs[a.targets[0].id] = a.value
+    return defs
+
+
+def guard_reads(test, consts, prefix):
+    """entries of `self` a test reads, directly or through the names bound
+    by the assignments in `prefix`"""
+    defs, out, seen = _prefix_defs(prefix), set(), set()
+
+    def rec(e):
+        k = self_key(e, consts=consts)
+        if k is not None:
+            out.add(k)
+            return
+        if isinstance(e, ast.Name) and e.id in defs and e.id not in seen:
+            seen.add(e.id)
+            rec(defs[e.id])
+            return
+        for c in ast.iter_child_nodes(e):
+            if isinstance(c, ast.expr):
+                rec(c)
+    rec(test)
+    return out
+
+
 class Block:
     """one alias unit: the statements which run when the deprecated entry is
     set.  `node` is the statement it comes from, `consts` the constants bound
     to names (a row of a table driven loop)"""
 
-    def __init__(self, node, body, consts=None):
+    def __init__(self, node, body, consts=None, guard=None, prefix=()):
         self.node, self.body, self.consts = node, body, consts or {}
+        # the test which decides whether the unit runs (positive form) and the
+        # assignments in front of it which bind the names it reads
+        self.guard, self.prefix = guard, list(prefix)
 
 
 def _writes_self(stmts, consts):
@@ -233,24 +281,23 @@ def _table_units(prog, f, loop):
                 continue
             if isinstance(b, ast.If) and not b.orelse:
                 t = b.test
-                if isinstance(t, ast.UnaryOp) and isinstance(t.op, ast.Not) \
-                        and len(b.body) == 1 and \
-                        isinstance(b.body[0], ast.Continue):
-                    guard, rest = t.operand, loop.body[i + 1:]
+                if len(b.body) == 1 and isinstance(b.body[0], ast.Continue):
+                    # early-continue form: the unit runs when the test fails
+                    guard = t.operand if isinstance(t, ast.UnaryOp) and \
+                        isinstance(t.op, ast.Not) else ast.copy_location(
+                            ast.UnaryOp(op=ast.Not(), operand=t), t)
+                    rest = loop.body[i + 1:]
                 elif i == len(loop.body) - 1:
                     guard, rest = t, b.body
             break
         if guard is None:
             return None
-        old = self_key(guard, consts=consts)
-        if old is None and isinstance(guard, ast.Name):
-            for a in prefix:
-                if any(isinstance(t, ast.Name) and t.id == guard.id
-                       for t in a.targets):
-                    old = self_key(a.value, consts=consts)
-        if old is None:
+        subj = guard_reads(guard, consts, prefix)
+        if len(subj) != 1:
             return None
-        out.append((old, Block(loop, prefix + list(rest), consts)))
+        old = list(subj)[0]
+        out.append((old, Block(loop, prefix + list(rest), consts, guard,
+                               prefix)))
     return out
 
 
@@ -270,12 +317,23 @@ def alias_blocks(f, prog=None):
             continue
         old = self_key(s.test)
         if old is None:
-            continue
+            # a test of another form on a documented deprecated attribute
+            # (`self.x > 0`, `self.x is not None`, ...): R19.8 decides for
+            # which values it passes
+            reads = guard_reads(s.test, None, ())
+            if not (reads & DEPRECATED) or not _writes_self(s.body, None):
+                continue
+            if len(reads) != 1:
+                raise AnalysisError(
+                    'UNRECOGNISED-IDIOM %s: the alias block `if %s:` depends '
+                    'on several attributes (%s)' % (f.where, short(s.test, 50),
+                                                    sorted(reads)))
+            old = list(reads)[0]
         if all(isinstance(b, ast.Pass) for b in s.body):
             ignored.append(old)
             continue
         if _writes_self(s.body, None):
-            out.append((old, Block(s, s.body)))
+            out.append((old, Block(s, s.body, None, s.test)))
     return out, ignored
 
 
@@ -438,6 +496,221 @@ def r19_1(prog, rep, rid='R19.1'):
                 rep.info(rid, f, 'deprecated attributes %r and %r share the '
                          'replacement %r' % (taken[c], old, c))
             taken.setdefault(c, old)
+
+
+# ------------------------------------------------------------------------------
+# R19.8  for which values does the guard of an alias unit pass
+#
+class _Raises(Exception):
+    """evaluating the test raises in the analysed program"""
+
+
+class _NoEval(Exception):
+    """the test is outside of what the evaluator knows"""
+
+
+# set values of a schema type which an application may put into a deprecated
+# attribute (counts / sizes are positive; names are non-empty strings)
+TYPE_DOMAIN = {'int'  : (1, 2, 3, 64),
+               'float': (0.5, 1.0, 2.5),
+               'str'  : ('a', 'x y'),
+               'bool' : (True,)}
+_EVAL_CALLS = {'bool': bool, 'int': int, 'float': float, 'str': str,
+               'len': len, 'abs': abs}
+_EVAL_TYPES = {'int': int, 'float': float, 'str': str, 'bool': bool,
+               'list': list, 'dict': dict, 'tuple': tuple}
+_CMP = {ast.Eq   : lambda a, b: a == b,  ast.NotEq: lambda a, b: a != b,
+        ast.Lt   : lambda a, b: a < b,   ast.LtE  : lambda a, b: a <= b,
+        ast.Gt   : lambda a, b: a > b,   ast.GtE  : lambda a, b: a >= b,
+        ast.Is   : lambda a, b: a is b or (a == b and type(a) is type(b)),
+        ast.IsNot: lambda a, b: not (a is b or (a == b and
+                                                type(a) is type(b))),
+        ast.In   : lambda a, b: a in b,  ast.NotIn: lambda a, b: a not in b}
+_BIN = {ast.Add: lambda a, b: a + b, ast.Sub: lambda a, b: a - b,
+        ast.Mult: lambda a, b: a * b, ast.Div: lambda a, b: a / b,
+        ast.FloorDiv: lambda a, b: a // b, ast.Mod: lambda a, b: a % b}
+
+
+def guard_value(prog, f, block, old, v):
+    """value of the guard of an alias unit when the deprecated entry `old`
+    holds `v` (a small interpreter over constants: nothing of the analysed
+    program is executed)"""
+    consts, defs = block.consts, _prefix_defs(block.prefix)
+
+    def ev(e, depth=0):
+        if depth > 20:
+            raise _NoEval('too deep')
+        k = self_key(e, consts=consts)
+        if k is not None:
+            if k == old:
+                return v
+            raise _NoEval('reads %r' % k)
+        if isinstance(e, ast.Constant):
+            return e.value
+        if isinstance(e, ast.Name):
+            if e.id in defs:
+                return ev(defs[e.id], depth + 1)
+            if e.id in consts and not isinstance(consts[e.id], ast.AST):
+                return consts[e.id]
+            x = fold_name(prog, f.module, e, f.cls)
+            if x is UNKNOWN:
+                raise _NoEval('name %r' % e.id)
+            return x
+        try:
+            if isinstance(e, ast.UnaryOp):
+                x = ev(e.operand, depth + 1)
+                if isinstance(e.op, ast.Not):
+                    return not x
+                if isinstance(e.op, ast.USub):
+                    return -x
+                if isinstance(e.op, ast.UAdd):
+                    return +x
+            if isinstance(e, ast.BoolOp):
+                x = None
+                for sub in e.values:
+                    x = ev(sub, depth + 1)
+                    if isinstance(e.op, ast.And) and not x:
+                        return x
+                    if isinstance(e.op, ast.Or) and x:
+                        return x
+                return x
+            if isinstance(e, ast.Compare):
+                left = ev(e.left, depth + 1)
+                for op, right in zip(e.ops, e.comparators):
+                    r = ev(right, depth + 1)
+                    if type(op) not in _CMP:
+                        raise _NoEval(short(e, 40))
+                    if not _CMP[type(op)](left, r):
+                        return False
+                    left = r
+                return True
+            if isinstance(e, ast.BinOp) and type(e.op) in _BIN:
+                return _BIN[type(e.op)](ev(e.left, depth + 1),
+                                        ev(e.right, depth + 1))
+            if isinstance(e, ast.IfExp):
+                return ev(e.body if ev(e.test, depth + 1) else e.orelse,
+                          depth + 1)
+            if isinstance(e, (ast.Tuple, ast.List, ast.Set)):
+                return tuple(ev(x, depth + 1) for x in e.elts)
+            if isinstance(e, ast.Call) and isinstance(e.func, ast.Name) and \
+                    not e.keywords:
+                if e.func.id in _EVAL_CALLS and len(e.args) == 1:
+                    return _EVAL_CALLS[e.func.id](ev(e.args[0], depth + 1))
+                if e.func.id == 'isinstance' and len(e.args) == 2:
+                    ts = e.args[1].elts if isinstance(e.args[1], ast.Tuple) \
+                        else [e.args[1]]
+                    if all(isinstance(t, ast.Name) and t.id in _EVAL_TYPES
+                           for t in ts):
+                        return isinstance(ev(e.args[0], depth + 1), tuple(
+                            _EVAL_TYPES[t.id] for t in ts))
+        except (TypeError, ValueError, ZeroDivisionError) as exc:
+            raise _Raises('%s: %s' % (type(exc).__name__, exc))
+        raise _NoEval('`%s`' % short(e, 40))
+
+    if block.guard is None:
+        raise _NoEval('no test')
+    return ev(block.guard)
+
+
+def class_table(prog, c, name):
+    """{key: folded value or ast node} of the class level dict `name` (first
+    definition along the MRO)"""
+    for k in prog.mro(c):
+        node = k.consts.get(name)
+        if isinstance(node, ast.Dict):
+            out = {}
+            for kk, vv in zip(node.keys, node.values):
+                key = fold_name(prog, k.module, kk, k) if kk is not None \
+                    else UNKNOWN
+                if key is UNKNOWN:
+                    raise AnalysisError('%s.%s: computed key' % (k.where,
+                                                                  name))
+                val = fold_name(prog, k.module, vv, k)
+                out[key] = vv if val is UNKNOWN else val
+            return out
+    raise AnalysisError('anchor table %s.%s not found' % (c.where, name))
+
+
+def r19_8(prog, rep, rid='R19.8'):
+    rep.rule(rid, 'the test of each alias unit of TaskDescription._verify '
+             'passes for every set value of the deprecated attribute (all '
+             'non-default values of its schema type) and neither for its '
+             'default nor for the value the unit resets it to', minimum=10)
+    f = prog.method(TD[0], TD[1], '_verify')
+    c = prog.cls(*TD)
+    schema   = class_table(prog, c, '_schema')
+    defaults = class_table(prog, c, '_defaults')
+    blocks, ignored = alias_blocks(f, prog)
+    for old, block in blocks:
+        tp = schema.get(old)
+        tname = tp.id if isinstance(tp, ast.Name) else None
+        if tname not in TYPE_DOMAIN:
+            raise AnalysisError('%s: schema type of the deprecated attribute '
+                                '%r is not a scalar type (%s)'
+                                % (rid, old, short(tp, 30) if isinstance(
+                                    tp, ast.AST) else tp))
+        if old not in defaults or isinstance(defaults[old], ast.AST):
+            raise AnalysisError('%s: no constant default for the deprecated '
+                                'attribute %r' % (rid, old))
+        env, events = run_block(prog, f, old, block)
+        unset = [('its default', defaults[old])]
+        after = env.get('self.' + old)
+        if isinstance(after, tuple) and not any(
+                after[1] == u and type(after[1]) is type(u)
+                for _, u in unset):
+            unset.append(('the value the unit resets it to', after[1]))
+        gtxt = short(block.guard, 60) if block.guard is not None else '?'
+        missed, passed = [], []
+        try:
+            for v in TYPE_DOMAIN[tname]:
+                try:
+                    if not guard_value(prog, f, block, old, v):
+                        missed.append((v, 'is false'))
+                except _Raises as e:
+                    missed.append((v, 'raises %s' % e))
+            for what, v in unset:
+                try:
+                    if guard_value(prog, f, block, old, v):
+                        passed.append((what, v, 'is true'))
+                except _Raises as e:
+                    passed.append((what, v, 'raises %s' % e))
+        except _NoEval as e:
+            raise AnalysisError('UNRECOGNISED-IDIOM %s: test `%s` of the '
+                                'alias unit of %r: %s' % (f.where, gtxt, old,
+                                                          e))
+        new = ALIAS_SPEC.get(old) or 'its replacement'
+        if missed:
+            v, how = missed[0]
+            rep.bad(rid, f, '%s: guard misses set values' % old,
+                    'the alias unit of the deprecated %r runs under `%s`, '
+                    'which %s for %s=%r%s: that value is not copied to %s and '
+                    'the deprecated attribute stays set - the same '
+                    'description gives another result than with any other '
+                    'value, and than the other deprecated names give'
+                    % (old, gtxt, how, old, v, '' if len(missed) == 1 else
+                       ' (also for %s)' % ', '.join(repr(m[0])
+                                                    for m in missed[1:]),
+                       new), f.loc(block.node),
+                    history="TaskDescription({'executable': 'x', %r: %r})"
+                    ".verify(): %s keeps its own value, %s is still %r "
+                    "afterwards (as_dict() ships the deprecated name)"
+                    % (old, v, new, old, v))
+        elif passed:
+            what, v, how = passed[0]
+            rep.bad(rid, f, '%s: guard passes unset values' % old,
+                    'the alias unit of the deprecated %r runs under `%s`, '
+                    'which %s for %s (%r): a description which does not use '
+                    'the deprecated name (or was verified before) gets %s '
+                    'overwritten by that value' % (old, gtxt, how, what, v,
+                                                   new),
+                    f.loc(block.node),
+                    history="TaskDescription({'executable': 'x', %r: V})"
+                    ".verify()%s: %s is %r afterwards, not V"
+                    % (new, '' if what == 'its default' else ' twice', new, v))
+        else:
+            rep.ok(rid, f, '`%s` passes for %s in %s and not for %s'
+                   % (gtxt, old, list(TYPE_DOMAIN[tname]),
+                      [u for _, u in unset]), f.loc(block.node))
 
 
 # ------------------------------------------------------------------------------
@@ -929,6 +1202,27 @@ class Unrec(Exception):
     pass
 
 
+class NoSource(Unrec):
+    """the expression is decided, and its value does not come from a source:
+    `expr` is the part which replaces / shadows the source, `why` says what
+    it is instead"""
+
+    def __init__(self, expr, why):
+        Unrec.__init__(self, why)
+        self.expr, self.why = expr, why
+
+
+def _fixed_value(e):
+    """expression without any name: a literal (constant, empty or literal
+    container, call of a builtin container type without arguments)"""
+    if isinstance(e, ast.Call):
+        return isinstance(e.func, ast.Name) and e.func.id in (
+            'dict', 'list', 'tuple', 'set') and not e.args and not e.keywords
+    return isinstance(e, (ast.Constant, ast.Dict, ast.List, ast.Tuple,
+                          ast.Set)) and not any(
+        isinstance(n, (ast.Name, ast.Call, ast.Attribute)) for n in walk(e))
+
+
 class Pipes:
     """pipelines of primitive codec operations applied to a source value"""
 
@@ -992,12 +1286,48 @@ class Pipes:
                     if ops:
                         self.hoisted.append((f, expr.id, outer, ops))
                     return ops
+            if expr.id not in names:
+                # the function which builds the value, or one that encloses
+                # it: an object of the program, not something a caller gave
+                g = f
+                while g is not None:
+                    if g.name == expr.id and g.parent is not None and \
+                            expr.id in g.parent.nested:
+                        raise NoSource(expr, 'the function %s itself (the '
+                                       'wrapper which builds the value)'
+                                       % g.qual)
+                    g = g.parent
+                r = self.prog.lookup(f.module, expr.id)
+                if r and r[0] in ('func', 'class') and not any(
+                        expr.id in h.params for h in (f, outer) if h):
+                    raise NoSource(expr, 'the module level %s %s'
+                                   % ('function' if r[0] == 'func' else
+                                      'class', expr.id))
+                if f.cls is not None and not any(
+                        isinstance(d, ast.Name) and d.id == 'staticmethod'
+                        for d in f.node.decorator_list) and f.params[:1] == \
+                        [expr.id] and f.parent is None:
+                    raise NoSource(expr, 'the class / instance %r the method '
+                                   'is called on' % expr.id)
             raise Unrec('name %r is neither a parameter nor bound exactly '
                         'once in %s%s' % (expr.id, f.qual, ' or %s'
                                           % outer.qual if outer else ''))
         if isinstance(expr, ast.BoolOp) and isinstance(expr.op, ast.Or):
             # `x or <default>`: the default replaces a missing value only
             return self.pipe(f, expr.values[0], sources, env, depth + 1)
+        if isinstance(expr, ast.BoolOp) and isinstance(expr.op, ast.And):
+            # `a and b`: for every set (truthy) a the value is b
+            return self.pipe(f, expr.values[-1], sources, env, depth + 1)
+        if isinstance(expr, ast.IfExp) and (sources(expr.test) or (
+                isinstance(expr.test, ast.UnaryOp) and
+                isinstance(expr.test.op, ast.Not) and
+                sources(expr.test.operand))):
+            # `x if x else d` / `d if not x else x`: the arm for a set x
+            pos = sources(expr.test)
+            return self.pipe(f, expr.body if pos else expr.orelse, sources,
+                             env, depth + 1)
+        if _fixed_value(expr):
+            raise NoSource(expr, 'the literal `%s`' % short(expr, 30))
         if isinstance(expr, ast.Call):
             fn = expr.func
             r = self.prog.resolve(f.module, fn) \
@@ -1191,6 +1521,12 @@ def r19_4(prog, rep, rid='R19.4'):
     rep.rule('R19.4b', 'every value of a PythonTask payload is encoded '
              'inside the function which builds the payload (at call time), '
              'not once in an enclosing scope', minimum=6)
+    rep.rule('R19.9', 'every value of a PythonTask payload which the decoder '
+             'reads is, for every set argument, computed from a parameter of '
+             'the encoder (what the caller handed in) - not a literal, not '
+             'the wrapper or another object of the program; two entries are '
+             'not made from one parameter while another reaches none',
+             minimum=8)
     P = Pipes(prog)
     ser = prog.module(SER)
     # (d) primitives
@@ -1341,9 +1677,18 @@ def r19_4(prog, rep, rid='R19.4'):
                   message='%s encodes the task with %s, get_func_attr decodes '
                   'with %s' % (f.qual, e_outer, d_outer), loc=of.loc(ret),
                   history='get_func_attr(%s(...)) raises' % f.qual)
-        params = set(f.params) | set(
-            f.parent.params if f.parent is not None else [])
+        params = set()
+        for h in (f, f.parent):
+            if h is None:
+                continue
+            own = list(h.params)
+            if h.cls is not None and h.parent is None and own and not any(
+                    isinstance(d, ast.Name) and d.id == 'staticmethod'
+                    for d in h.node.decorator_list):
+                own = own[1:]           # cls / self: not given by the caller
+            params |= set(own)
         values = dict(zip(keys, enc['values']))
+        carried = {}             # payload key -> parameters it is made from
         for k in sorted(set(keys) | set(d_keys)):
             if k not in d_keys or k not in values:
                 # reported by the key-set obligation above
@@ -1351,16 +1696,43 @@ def r19_4(prog, rep, rid='R19.4'):
                        % (f.qual, k), f.loc(lit))
                 rep.ok('R19.4b', f, '%s: key %r has no counterpart'
                        % (f.qual, k), f.loc(lit))
+                rep.ok('R19.9', f, '%s: key %r has no counterpart'
+                       % (f.qual, k), f.loc(lit))
                 continue
             v = values[k]
             P.hoisted = []
+            hits = carried.setdefault(k, [])
             try:
                 ek = P.pipe(f, v, lambda e: isinstance(e, ast.Name)
-                            and e.id in params)
+                            and e.id in params and
+                            (hits.append(e.id) or True))
+            except NoSource as e:
+                rep.bad('R19.9', f, '%s: not from a parameter' % k,
+                        '%s puts `%s` into the payload under %r; for a set '
+                        'argument that value is %s, whatever the caller '
+                        'passed: get_func_attr decodes it without complaint, '
+                        'and the call made from the decoded (func, args, '
+                        'kwargs) is not the call the application encoded'
+                        % (f.qual, short(v, 50), k, e.why), f.loc(v),
+                        history={
+                            'func': 'decoding a task encoded by %s gives a '
+                            'callable which is not the function handed in: '
+                            'calling it with the decoded arguments returns '
+                            'something else than f(*args, **kwargs) (for the '
+                            'wrapper itself: another encoded task)' % f.qual,
+                        }.get(k, "%s with %s set (e.g. {'y': 5} / (1, 2)): "
+                              "the decoded %s is %s, the call runs without "
+                              "the caller's %s" % (f.qual, k, k, e.why, k)))
+                for r2 in (rid, rid, 'R19.4b'):
+                    rep.ok(r2, f, '%s: value of %r is not computed from a '
+                           'parameter (see R19.9)' % (f.qual, k), f.loc(v))
+                continue
             except Unrec as e:
                 raise AnalysisError('UNRECOGNISED-IDIOM %s: value of %r in '
                                     'the payload: %s' % (f.where, k, e))
             hoisted = list(P.hoisted)
+            rep.ok('R19.9', f, '%s: value of %r is computed from a parameter '
+                   'of the encoder' % (f.qual, k), f.loc(v))
             rep.check(not hoisted, 'R19.4b', f,
                       '%s: the value of %r is encoded when the payload is '
                       'built' % (f.qual, k), construct='%s: encoded outside'
@@ -1393,6 +1765,9 @@ def r19_4(prog, rep, rid='R19.4'):
                       'decoding raises)' % k)
             # (c) None handed to a consumer which unpacks it
             none_dflt = False
+            if isinstance(v, ast.BoolOp) and isinstance(v.op, ast.And):
+                # `x and ..`: an unset x is stored as it is
+                v = v.values[0]
             if isinstance(v, ast.Name) and v.id in f.params:
                 dflt = _param_default(f, v.id)
                 rebound = any(
@@ -1418,6 +1793,35 @@ def r19_4(prog, rep, rid='R19.4'):
                       'returns %s=None and the call %s raises TypeError: the '
                       'task fails although f is fine' % (
                           k, k, short(unpack[1], 40) if unpack else ''))
+        _distinct_sources(rep, f, carried, params, lit)
+
+
+def _distinct_sources(rep, f, carried, params, lit):
+    """two payload entries made from the same parameter while another
+    parameter reaches none: one of the two names the wrong variable"""
+    used = {p for ps in carried.values() for p in ps}
+    twice = sorted(p for p in used
+                   if sum(1 for ps in carried.values() if p in ps) > 1)
+    a = f.node.args
+    own = [x.arg for x in a.posonlyargs + a.args + a.kwonlyargs] + \
+        [x.arg for x in (a.vararg, a.kwarg) if x is not None]
+    lost = sorted(p for p in own if p in params and p not in used)
+    bad = bool(twice and lost)
+    rep.check(not bad, 'R19.9', f,
+              '%s: the payload entries %s are made from different parameters'
+              % (f.qual, sorted(carried)), construct='same parameter twice',
+              message='%s makes the payload entries %s from the one parameter '
+              '%r while its parameter %r reaches no entry: the decoded call '
+              'gets %r in both places and never sees %r' % (
+                  f.qual, sorted(k for k, ps in carried.items()
+                                 if twice and twice[0] in ps),
+                  twice[0] if twice else '', lost[0] if lost else '',
+                  twice[0] if twice else '', lost[0] if lost else ''),
+              loc=f.loc(lit),
+              history='%s with both %s and %s set: get_func_attr returns the '
+              'value of %s for both' % (
+                  f.qual, twice[0] if twice else '', lost[0] if lost else '',
+                  twice[0] if twice else ''))
 
 
 def _consumer_unpacks(prog, dec, d_keys):
@@ -1526,6 +1930,31 @@ def _prov(expr, env, slot):
             elif isinstance(c, ast.expr):
                 out |= _prov(c, env, slot)
     return frozenset(out)
+
+
+def scope_imports(fn):
+    """imports executed in the body of fn or of a function enclosing it"""
+    out, g = {}, fn
+    while g is not None:
+        for k, v in g.module.local_imports(g.node).items():
+            out.setdefault(k, v)
+        g = g.parent
+    return out
+
+
+def converter_funcs(prog, f):
+    """the converter and the helper functions of its module (nested or
+    module level) it calls"""
+    funcs = [f]
+    for fn in funcs:
+        for c in calls_in(fn.node):
+            callee = prog.resolve_call(fn, c)
+            if callee is not None and callee.cls is None and \
+                    callee.module is f.module and callee not in funcs:
+                funcs.append(callee)
+        if len(funcs) > 12:
+            break
+    return funcs
 
 
 def converter_facts(prog, f):
@@ -1680,14 +2109,9 @@ def r19_5(prog, rep, rid='R19.5'):
                           k, '/'.join(sorted(foreign[0])) if foreign
                           else 'default', k))
         # RO(...) calls of the converter and of the module helpers it calls
-        funcs, ros = [f], []
-        for c in calls_in(f.node):
-            callee = prog.resolve_call(f, c)
-            if callee is not None and callee.cls is None and \
-                    callee.module is f.module and callee not in funcs:
-                funcs.append(callee)
+        funcs, ros = converter_funcs(prog, f), []
         for fn in funcs:
-            limp = fn.module.local_imports(fn.node)
+            limp = scope_imports(fn)
             for c in calls_in(fn.node):
                 r = prog.resolve(fn.module, c.func, limp)
                 if r and r[0] == 'class' and r[1] is ro_cls:
@@ -1712,6 +2136,220 @@ def r19_5(prog, rep, rid='R19.5'):
                       loc=bad[0][0].loc(bad[0][1]) if bad else f.loc(),
                       history='an old-format slot: the new slot names core 0 '
                       '/ has no occupation')
+
+
+# ------------------------------------------------------------------------------
+# R19.10  which component of an input entry goes where (index / occupation)
+#
+_PLAIN_ITER_CALLS = {'list', 'tuple', 'sorted', 'reversed'}
+
+
+def _parents(root):
+    par = {}
+    for n in walk(root):
+        for c in ast.iter_child_nodes(n):
+            par[id(c)] = n
+    return par
+
+
+def _plain_view(e):
+    """the iterated expression is the input list itself (a name, an entry of
+    a mapping, an order preserving copy of those) - not enumerate / zip /
+    items / a generator, whose items are not entries of the input format"""
+    if isinstance(e, (ast.Name, ast.Subscript, ast.Attribute)):
+        return True
+    if isinstance(e, ast.Call):
+        if isinstance(e.func, ast.Name) and e.func.id in _PLAIN_ITER_CALLS \
+                and len(e.args) == 1:
+            return _plain_view(e.args[0])
+        if isinstance(e.func, ast.Attribute) and e.func.attr == 'get':
+            return True
+    return False
+
+
+def _binders(node, par):
+    """[(target, iterated expr, loop statement or None)] of the loops and
+    comprehension clauses enclosing `node`, innermost first"""
+    out, n = [], node
+    while id(n) in par:
+        up = par[id(n)]
+        if isinstance(up, (ast.ListComp, ast.SetComp, ast.GeneratorExp,
+                           ast.DictComp)) and not any(
+                               n is g for g in up.generators):
+            out += [(g.target, g.iter, None) for g in reversed(up.generators)]
+        elif isinstance(up, ast.For) and any(n is b for b in up.body):
+            out.append((up.target, up.iter, up))
+        n = up
+    return out
+
+
+def component_of(expr, node, par, depth=0):
+    """('pos', i) / ('key', k): which component of an entry of the iterated
+    input list the value of expr is; None if it is the entry as a whole or
+    anything else"""
+    if depth > 4:
+        return None
+    binders = _binders(node, par)
+
+    def entry(name):
+        """binder of a plain loop variable: ('elem',) / ('pos', i)"""
+        for tgt, it, loop in binders:
+            if isinstance(tgt, ast.Name) and tgt.id == name:
+                return ('elem',) if _plain_view(it) else ('other',)
+            if isinstance(tgt, (ast.Tuple, ast.List)):
+                for i, e in enumerate(tgt.elts):
+                    if isinstance(e, ast.Name) and e.id == name:
+                        return ('pos', i) if _plain_view(it) and not any(
+                            isinstance(x, ast.Starred) for x in tgt.elts) \
+                            else ('other',)
+        return None
+
+    if isinstance(expr, ast.Name):
+        b = entry(expr.id)
+        if b is not None:
+            return b if b[0] == 'pos' else None
+        # bound once in the body of an enclosing loop
+        for tgt, it, loop in binders:
+            if loop is None:
+                continue
+            defs = []
+            for st in walk_stmts(loop.body):
+                if isinstance(st, ast.Assign):
+                    for t in st.targets:
+                        if isinstance(t, ast.Name) and t.id == expr.id:
+                            defs.append((st, st.value, None))
+                        elif isinstance(t, (ast.Tuple, ast.List)):
+                            for i, e in enumerate(t.elts):
+                                if isinstance(e, ast.Name) and \
+                                        e.id == expr.id:
+                                    defs.append((st, st.value, i))
+            if len(defs) == 1:
+                st, val, i = defs[0]
+                if i is None:
+                    return component_of(val, st, par, depth + 1)
+                if isinstance(val, ast.Name) and entry(val.id) == ('elem',):
+                    return ('pos', i)
+                if isinstance(val, (ast.Tuple, ast.List)) and \
+                        i < len(val.elts):
+                    return component_of(val.elts[i], st, par, depth + 1)
+            if defs:
+                return None
+        return None
+    base, sel = None, None
+    if isinstance(expr, ast.Subscript) and isinstance(expr.slice, ast.Constant):
+        base, sel = expr.value, expr.slice.value
+    elif isinstance(expr, ast.Attribute):
+        base, sel = expr.value, expr.attr
+    elif isinstance(expr, ast.Call) and isinstance(expr.func, ast.Attribute) \
+            and expr.func.attr == 'get' and expr.args and \
+            isinstance(expr.args[0], ast.Constant):
+        base, sel = expr.func.value, expr.args[0].value
+    if isinstance(base, ast.Name) and entry(base.id) == ('elem',):
+        if isinstance(sel, bool):
+            return None
+        if isinstance(sel, int):
+            return ('pos', sel)
+        if isinstance(sel, str):
+            return ('key', sel)
+    return None
+
+
+def walk_stmts(stmts):
+    for s in stmts:
+        if isinstance(s, (ast.FunctionDef, ast.AsyncFunctionDef,
+                          ast.ClassDef)):
+            continue
+        yield s
+        for fld in ('body', 'orelse', 'finalbody'):
+            yield from walk_stmts(getattr(s, fld, []) or [])
+        for h in getattr(s, 'handlers', []) or []:
+            yield from walk_stmts(h.body)
+
+
+def r19_10(prog, rep, rid='R19.10'):
+    rep.rule(rid, 'where a slot converter takes an entry of the input apart, '
+             'each part goes where it belongs: RO(index=, occupation=) get '
+             'the part of that name (dict / RO entries) resp. of that position '
+             'in RO._schema order ((index, occupation) pairs); the old format '
+             'is built from the index', minimum=6)
+    ro_cls  = prog.cls(RC, 'RO')
+    ro_keys = class_table_keys(prog, ro_cls, '_schema')
+    # old -> new: RO(...) calls
+    f = prog.function(MISC, 'convert_slots_to_new')
+    for fn in converter_funcs(prog, f):
+        limp, par = scope_imports(fn), _parents(fn.node)
+        for c in calls_in(fn.node):
+            r = prog.resolve(fn.module, c.func, limp)
+            if not (r and r[0] == 'class' and r[1] is ro_cls) or c.args:
+                continue
+            sel = {k.arg: component_of(k.value, c, par)
+                   for k in c.keywords if k.arg in ro_keys}
+            sel = {k: v for k, v in sel.items() if v is not None}
+            if not sel:
+                continue
+            wrong = []
+            for k, (kind, x) in sorted(sel.items()):
+                want = k if kind == 'key' else ro_keys.index(k)
+                if x != want:
+                    wrong.append((k, kind, x, want))
+            pairs = any(kind == 'pos' for kind, x in sel.values())
+            rep.check(not wrong, rid, fn,
+                      '`%s`: %s' % (short(c, 40), ', '.join(
+                          '%s <- entry[%r]' % (k, v[1])
+                          for k, v in sorted(sel.items()))),
+                      construct='RO parts: %s' % ', '.join(
+                          '%s<-%r' % (k, x) for k, kind, x, want in wrong),
+                      message='%s builds `%s` with %s: %s' % (
+                          fn.qual, short(c, 50), '; '.join(
+                              '%s taken from part %r of the entry instead of '
+                              '%r' % (k, x, want)
+                              for k, kind, x, want in wrong),
+                          'an entry given as an (index, occupation) pair (the '
+                          'order of RO._schema, which the Slot._schema '
+                          'comment documents) comes out with index and '
+                          'occupation exchanged' if pairs else
+                          'an entry given as a dict / RO comes out with the '
+                          'wrong value under that name'),
+                      loc=fn.loc(c),
+                      history="convert_slots_to_new([{'cores': %s, 'gpus': "
+                      "[], 'lfs': 0, 'mem': 0, 'node_index': 0, 'node_name': "
+                      "'n'}]): the new slot names core 0.5 with occupation 3"
+                      % ('[(3, 0.5)]' if pairs else
+                         "[{'index': 3, 'occupation': 0.5}]"))
+    # new -> old: entries are reduced to their index
+    f = prog.function(MISC, 'convert_slots_to_old')
+    for fn in converter_funcs(prog, f):
+        par = _parents(fn.node)
+        for n in walk(fn.node):
+            # the element of a comprehension, or of `<list>.append(..)` in a
+            # loop over the entries
+            if isinstance(n, (ast.ListComp, ast.GeneratorExp)):
+                elt = n.elt
+            elif isinstance(n, ast.Call) and isinstance(n.func, ast.Attribute) \
+                    and n.func.attr == 'append' and len(n.args) == 1:
+                elt = n.args[0]
+            else:
+                continue
+            keys = []
+            for x in walk(elt):
+                sel = component_of(x, elt, par) if isinstance(
+                    x, (ast.Subscript, ast.Attribute, ast.Call)) else None
+                if sel and sel[0] == 'key':
+                    keys.append(sel[1])
+            if not keys:
+                continue
+            rep.check(ro_keys[0] in keys, rid, fn,
+                      '`%s` keeps the %s of each entry' % (short(n, 40),
+                                                           ro_keys[0]),
+                      construct='old entry from %s' % sorted(set(keys)),
+                      message='%s reduces each entry of the new slot to `%s` '
+                      '(%s): the old format lists core / GPU indices, the '
+                      '%s of the entry is lost' % (
+                          fn.qual, short(elt, 40), sorted(set(keys)),
+                          ro_keys[0]), loc=fn.loc(n),
+                      history='convert_slots_to_old([Slot(cores=[RO(index=3, '
+                      'occupation=0.5)], ..)]) gives cores [[0.5]] instead '
+                      'of [[3]]')
 
 
 # ------------------------------------------------------------------------------
@@ -1919,8 +2557,75 @@ class CtorMaps:
             return st.freeze()
         return transfer
 
+    # -- which entries are present (R19.11) -----------------------------------
+    def _entry_read(self, e, env):
+        """key K if e is <mapping>.get(K) / <mapping>[K] for a local name
+        which refers to an input mapping (or a copy of one)"""
+        m, k = None, None
+        if isinstance(e, ast.Call) and isinstance(e.func, ast.Attribute) and \
+                e.func.attr == 'get' and e.args:
+            m, k = e.func.value, e.args[0]
+        elif isinstance(e, ast.Subscript):
+            m, k = e.value, e.slice
+        if isinstance(m, ast.Name) and env.get(m.id, 'u:')[:2] in ('p:', 'c:'):
+            if isinstance(k, ast.Constant) and isinstance(k.value, str):
+                return k.value
+            v = self.prog.fold(self.f.module, k, self.f.cls) \
+                if k is not None else UNKNOWN
+            if isinstance(v, str):
+                return v
+        return None
+
+    def presence_step(self, node, edge, x, env):
+        """x = (names holding an entry of the input, assumptions made on the
+        path about entries being set); None if the edge contradicts them"""
+        ent, assume = dict(x[0]), dict(x[1])
+        a = node.ast
+        if node.kind == 'stmt' and isinstance(a, (ast.Assign, ast.AugAssign,
+                                                  ast.AnnAssign)):
+            targets = a.targets if isinstance(a, ast.Assign) else [a.target]
+            for t in targets:
+                for nm in stores_in_target(t):
+                    ent.pop(nm, None)
+            if isinstance(a, ast.Assign) and len(targets) == 1 and \
+                    isinstance(targets[0], ast.Name):
+                k = self._entry_read(a.value, env)
+                if k is not None:
+                    ent[targets[0].id] = k
+        elif node.kind in ('for', 'with') and a is not None:
+            tg = [a.target] if node.kind == 'for' else [
+                it.optional_vars for it in a.items if it.optional_vars]
+            for t in tg:
+                for nm in stores_in_target(t):
+                    ent.pop(nm, None)
+        elif node.kind == 'test' and edge.label in ('T', 'F'):
+            taken = edge.label == 'T'
+
+            def key_of(e):
+                if isinstance(e, ast.Name):
+                    return ent.get(e.id)
+                return self._entry_read(e, env)
+            k, implied = key_of(a), None
+            if k is not None:
+                implied = taken
+            elif isinstance(a, ast.Compare) and len(a.ops) == 1 and \
+                    isinstance(a.ops[0], (ast.Is, ast.IsNot)) and \
+                    isinstance(a.comparators[0], ast.Constant) and \
+                    a.comparators[0].value is None:
+                k = key_of(a.left)
+                # `x is None` holds: x is not set; it fails: nothing follows
+                # (an empty list is not None and not set either)
+                if k is not None and taken == isinstance(a.ops[0], ast.Is):
+                    implied = False
+            if k is not None and implied is not None:
+                if assume.get(k, implied) != implied:
+                    return None
+                assume[k] = implied
+        return (frozenset(ent.items()), frozenset(assume.items()))
+
     def runs(self):
-        """[(super call, MapState at the call, literals of a witness path)]"""
+        """[(super call, MapState at the call, literals of a witness path,
+        node id, choices, entries assumed set / not set on the path)]"""
         params = [p for p in self.f.params if p != 'self']
         init = MapState(env={p: 'p:' + p for p in params})
         picks = [{}]
@@ -1932,9 +2637,20 @@ class CtorMaps:
             if tried > 16:
                 raise AnalysisError('UNRECOGNISED-IDIOM %s: too many `a or b` '
                                     'mapping choices' % self.f.where)
+            base = self.transfer_for(pick)
+
+            def transfer(node, edge, state):
+                fz, x = state
+                x2 = self.presence_step(node, edge, x, dict(fz[0])) \
+                    if edge.label != 'exc' else x
+                if x2 is None:
+                    return None
+                fz2 = base(node, edge, fz)
+                return None if fz2 is None else (fz2, x2)
             try:
-                ex = Exploration(self.g, self.g.entry.id, init.freeze(),
-                                 self.transfer_for(pick),
+                ex = Exploration(self.g, self.g.entry.id,
+                                 (init.freeze(), (frozenset(), frozenset())),
+                                 transfer,
                                  stop=lambda nid: nid in self.super_nodes or
                                  nid in (self.g.exit.id, self.g.raise_.id))
             except _NeedChoice as e:
@@ -1946,7 +2662,8 @@ class CtorMaps:
             for t in ex.terminals:
                 if t.node in self.super_nodes:
                     out.append((self.super_nodes[t.node], MapState.thaw(
-                        t.state), ex.literals(t), t.node, pick))
+                        t.state[0]), ex.literals(t), t.node, pick,
+                        dict(t.state[1][1])))
         return out
 
 
@@ -1961,6 +2678,10 @@ def r19_7(prog, rep, rid='R19.7'):
              'object (or a copy made after the conversion) is handed to '
              'super().__init__, and no argument of higher precedence carries '
              'the same input unconverted', minimum=2)
+    rep.rule('R19.11', 'whether Slot.__init__ / Node.__init__ convert the '
+             'entries of one kind (cores, gpus) depends on that kind only: '
+             'with the other kind set as well, the same conversions happen',
+             minimum=2)
     for rel, cname in NORMALISERS:
         f = prog.method(rel, cname, '__init__')
         rep.saw(f)
@@ -1971,7 +2692,7 @@ def r19_7(prog, rep, rid='R19.7'):
         runs = cm.runs()
         rep.stat('paths', len(runs))
         seen_keys, reported = set(), set()
-        for call, st, lits, nid, pick in runs:
+        for call, st, lits, nid, pick, assumed in runs:
             if not st.events:
                 continue
             # arguments of the base constructor in order of precedence
@@ -2043,6 +2764,7 @@ def r19_7(prog, rep, rid='R19.7'):
         if not seen_keys:
             raise AnalysisError('UNRECOGNISED-IDIOM %s: no store into the '
                                 'input mapping found' % f.where)
+        _independent_kinds(rep, f, cname, runs)
         if not reported:
             rep.ok(rid, f, '%s.__init__: the mapping in which %s are '
                    'converted is the one super().__init__ receives, no '
@@ -2050,6 +2772,93 @@ def r19_7(prog, rep, rid='R19.7'):
                    % (cname, '/'.join(sorted(k.lstrip('$')
                                               for k in seen_keys))),
                    f.loc(cm.supers[0]))
+
+
+def _independent_kinds(rep, f, cname, runs, rid='R19.11'):
+    """R19.11: over the paths to super().__init__, with the presence of the
+    entries decided (set / not set) and all other tests open, the conversion
+    of kind k happens with all kinds set exactly when it happens with only k
+    set"""
+    stored = [({k for t, k in st.events}, assumed, lits)
+              for call, st, lits, nid, pick, assumed in runs]
+    kinds = sorted({k for ks, a, l in stored for k in ks
+                    if not k.startswith('$')})
+    if len(kinds) < 2:
+        # one generic conversion for all kinds (helper with the kind as
+        # parameter, loop over the kinds).  A loop must give every kind its
+        # turn: it is left by exhaustion only
+        g = cfg_of(f)
+        for h in g.nodes:
+            if h.kind != 'for' or not isinstance(h.ast.target, ast.Name):
+                continue
+            var = h.ast.target.id
+            if not any(isinstance(t, ast.Subscript) and
+                       isinstance(t.slice, ast.Name) and t.slice.id == var
+                       and isinstance(t.ctx, ast.Store)
+                       for t in walk(h.ast)):
+                continue
+            start, stop, stop_edge = loop_slice(g, h.id)
+            ex = Exploration(g, start, 0, lambda n, e, st: st,
+                             stop=lambda nid: stop(nid) or nid in (
+                                 g.exit.id, g.raise_.id), stop_edge=stop_edge)
+            early = [t for t in ex.terminals if t.node != g.raise_.id and
+                     t.node != h.id and t.via != 'exc']
+            if early:
+                lits = ex.literals(early[0])
+                rep.bad(rid, f, '%s: loop over the kinds left early' % cname,
+                        '%s.__init__ converts the kinds in a loop over `%s` '
+                        'and leaves that loop from inside its body (break / '
+                        'return%s): the kinds which come later are not '
+                        'converted because of what an earlier kind holds'
+                        % (cname, short(h.ast.iter, 40), ' after `%s`'
+                           % lits[-1] if lits else ''), f.loc(h.ast),
+                        history='%s(gpus=[2, 1]) (no cores): .gpus stays a '
+                        'list of ints, .gpus[0].index raises' % cname)
+                return
+        rep.ok(rid, f, '%s.__init__ converts %s through one generic piece of '
+               'code' % (cname, '/'.join(sorted(
+                   {k.lstrip('$') for ks, a, l in stored for k in ks}))),
+               f.loc())
+        return
+
+    def outcomes(k, val):
+        out = {}
+        for ks, assumed, lits in stored:
+            if all(assumed.get(x, v) == v for x, v in val.items()):
+                out.setdefault(k in ks, lits)
+        return out
+    bad = []
+    for k in kinds:
+        alone = outcomes(k, {x: x == k for x in kinds})
+        both  = outcomes(k, {x: True for x in kinds})
+        if set(alone) != set(both):
+            bad.append((k, alone, both))
+    if not bad:
+        rep.ok(rid, f, '%s.__init__: each of %s is converted under tests on '
+               'that entry only' % (cname, '/'.join(kinds)), f.loc())
+        return
+    for k, alone, both in bad:
+        others = [x for x in kinds if x != k]
+        if True in alone and True not in both:
+            what = 'never converted'
+        elif True not in alone:
+            what = 'only converted then'
+        else:
+            what = 'not converted on the same conditions'
+        wit = both.get(False) or both.get(True) or []
+        rep.bad(rid, f, '%s:%s depends on %s' % (cname, k, '/'.join(others)),
+                '%s.__init__ converts compact %r entries (ints / dicts) to RO '
+                'records when only %r is set, but with %s set as well they '
+                'are %s: whether %r is converted is decided by a test on '
+                'another entry, the two kinds are independent parts of a '
+                'placement' % (cname, k, k, '/'.join(repr(x) for x in others),
+                               what, k), f.loc(),
+                history='%s(%s) [path: %s]: .%s stays a list of ints - '
+                '.%s[0].index raises, as_dict() -> %s() does not give the '
+                'same slot, TaskDescription.verify() refuses it' % (
+                    cname, ', '.join('%s=[%d, 1]' % (x, i)
+                                     for i, x in enumerate(kinds)),
+                    '; '.join(wit[-4:]), k, k, cname))
 
 
 # ------------------------------------------------------------------------------
@@ -2083,7 +2892,13 @@ def run(prog, rep, tier):
         'and occupation; statements of _verify which derive an attribute '
         'from a replacement attribute run after the alias blocks writing it; '
         'payload values of the PythonTask encoders are encoded where the '
-        'payload is built, not in an enclosing scope.')
+        'payload is built, not in an enclosing scope, and each is computed '
+        'from a parameter of the encoder for every set argument; the test of '
+        'each alias unit passes exactly for the set values of the deprecated '
+        'attribute (finite domain per schema type); the slot converters put '
+        'each part of an entry (by name or by position) where it belongs; '
+        'Slot/Node.__init__ convert cores and gpus independently of each '
+        'other.')
     rep.undecided = ('equality of values after a round trip through '
         'as_dict()/constructor (radical.utils TypedDict is trusted); '
         'pickling of arbitrary callables; numeric conversions (float()) of '
@@ -2097,13 +2912,20 @@ def run(prog, rep, tier):
         'TaskDescription docstring (table MODE_SPEC in the rules module)',
         'alias blocks are straight-line; a block with control flow stops the '
         'analysis (exit 2)',
+        'set values of a deprecated attribute are the positive numbers / '
+        'non-empty strings of its schema type (TYPE_DOMAIN in the rules '
+        'module); `> 0` and truthiness are the same test on them',
+        'the pair spelling of a resource entry lists the RO schema keys in '
+        'schema order (index, occupation), as the Slot._schema comment says',
     ]
     r19_1(prog, rep)
+    r19_8(prog, rep)
     r19_6(prog, rep)
     r19_2(prog, rep)
     r19_2b(prog, rep)
     r19_4(prog, rep)
     r19_5(prog, rep)
+    r19_10(prog, rep)
     rep.attempt(r19_7, prog, rep)
     if tier == 'thorough':
         r19_3(prog, rep)
@@ -2336,6 +3158,22 @@ _CORPUS = {
          "\n        if from_dict:\n\n            cores = from_dict.get('cores')\n            gpus  = from_dict.get('gpus')\n\n            if cores:\n                # this is much faster than `isinstance`\n                if cores[0].__class__.__name__ == 'dict':\n                    from_dict['cores'] =  [RO(d) for d in cores]\n\n                elif isinstance(cores[0], int):\n                    from_dict['cores'] =  [RO(index=i, occupation=BUSY)\n                                                 for i in cores]\n\n            if gpus:\n                if gpus[0].__class__.__name__ == 'dict':\n                    from_dict['gpus'] =  [RO(d) for d in gpus]\n\n                elif isinstance(gpus[0], int):\n                    from_dict['gpus'] =  [RO(index=i, occupation=BUSY)\n                                                for i in gpus]\n\n\n        super().__init__(from_dict, **kwargs)\n",
          "\n        if from_dict:\n\n            for key in (self.CORES, self.GPUS):\n\n                resources = from_dict.get(key)\n                if not resources:\n                    continue\n\n                # this is much faster than `isinstance`\n                if resources[0].__class__.__name__ == 'dict':\n                    from_dict[key] = [RO(d) for d in resources]\n\n                elif isinstance(resources[0], int):\n                    from_dict[key] = [RO(index=i, occupation=BUSY)\n                                            for i in resources]\n\n\n        super().__init__(from_dict, **kwargs)\n"),
     ],
+    'C19-r7': [
+        ('task_description.py',
+         "METADATA         = 'metadata'\n\n\n# ------------------------------------------------------------------------------\n#\nclass TaskDescription(FastTypedDict):\n",
+         "METADATA         = 'metadata'\n\n\n# deprecated attributes: a set value is moved (converted) to the replacement\n#   (deprecated name , replacement   , conversion, reset value)\n_DEPRECATED = [\n    (CPU_PROCESSES   , RANKS         , None      , 0   ),\n    (CPU_THREADS     , CORES_PER_RANK, None      , 0   ),\n    (CPU_THREAD_TYPE , THREADING_TYPE, None      , None),\n    (GPU_PROCESSES   , GPUS_PER_RANK , float     , 0   ),\n    (GPU_PROCESS_TYPE, GPU_TYPE      , None      , None),\n    (LFS_PER_PROCESS , LFS_PER_RANK  , None      , 0   ),\n    (MEM_PER_PROCESS , MEM_PER_RANK  , None      , 0   ),\n    (SCHEDULER       , RAPTOR_ID     , None      , ''  ),\n    (WORKER_FILE     , RAPTOR_FILE   , None      , ''  ),\n    (WORKER_CLASS    , RAPTOR_CLASS  , None      , ''  ),\n]\n\n\n# ------------------------------------------------------------------------------\n#\nclass TaskDescription(FastTypedDict):\n"),
+        ('task_description.py',
+         '                raise ValueError("TASK_SHELL Task mode needs \'command\'")\n\n        # backward compatibility for deprecated attributes\n        if self.cpu_processes:\n            self.ranks = self.cpu_processes\n            self.cpu_processes = 0\n\n        if self.cpu_threads:\n            self.cores_per_rank = self.cpu_threads\n            self.cpu_threads = 0\n\n        if self.cpu_thread_type:\n            self.threading_type = self.cpu_thread_type\n            self.cpu_thread_type = None\n\n        if self.gpu_processes:\n            self.gpus_per_rank = float(self.gpu_processes)\n            self.gpu_processes = 0\n\n        if self.gpu_process_type:\n            self.gpu_type = self.gpu_process_type\n            self.gpu_process_type = None\n\n        if self.lfs_per_process:\n            self.lfs_per_rank = self.lfs_per_process\n            self.lfs_per_process = 0\n\n        if self.mem_per_process:\n            self.mem_per_rank = self.mem_per_process\n            self.mem_per_process = 0\n\n        if self.scheduler:\n            self.raptor_id = self.scheduler\n            self.scheduler = \'\'\n\n        if self.worker_file:\n            self.raptor_file = self.worker_file\n            self.worker_file = \'\'\n\n        if self.worker_class:\n            self.raptor_class = self.worker_class\n            self.worker_class = \'\'\n\n        if self.use_mpi is None:\n            self.use_mpi = bool(self.ranks - 1)\n',
+         '                raise ValueError("TASK_SHELL Task mode needs \'command\'")\n\n        # backward compatibility for deprecated attributes\n        for old_key, new_key, convert, unset in _DEPRECATED:\n            old_val = self.get(old_key)\n            if not old_val:\n                continue\n\n            self[new_key] = convert(old_val) if convert else old_val\n            self[old_key] = unset\n\n        if self.use_mpi is None:\n            self.use_mpi = bool(self.ranks - 1)\n'),
+    ],
+    'C19-r8': [
+        ('utils/misc.py',
+         '    if not slots:\n        return slots\n\n    new_slots = list()\n    for slot in slots:\n\n',
+         "    if not slots:\n        return slots\n\n    # --------------------------------------------------------------------------\n    def to_ros(resources):\n        # accept lists of `RO`s, of indexes, of `RO` dicts or of\n        # `(index, occupation)` pairs - the first element decides\n\n        if not resources:\n            return resources\n\n        first = resources[0]\n\n        if isinstance(first, RO):\n            return resources\n\n        if isinstance(first, int):\n            return [RO(index=i, occupation=1.0) for i in resources]\n\n        if isinstance(first, dict):\n            return [RO(index=ro['index'], occupation=ro['occupation'])\n                    for ro in resources]\n\n        return [RO(index=i, occupation=o) for i,o in resources]\n    # --------------------------------------------------------------------------\n\n    new_slots = list()\n    for slot in slots:\n\n"),
+        ('utils/misc.py',
+         "            new_slots.append(slot)\n            continue\n\n        cores = slot['cores']\n        if cores:\n            if isinstance(cores[0], RO):\n                pass\n            elif isinstance(cores[0], int):\n                cores = [RO(index=i, occupation=1.0)\n                         for i in slot['cores']]\n            elif isinstance(cores[0], dict):\n                cores = list()\n                for ro in slot['cores']:\n                    i = ro['index']\n                    o = ro['occupation']\n                    cores.append(RO(index=i, occupation=o))\n            else:\n                cores = [RO(index=i, occupation=o)\n                         for i,o in slot['cores']]\n\n\n        gpus = slot['gpus']\n        if gpus:\n            if isinstance(gpus[0], RO):\n                pass\n            elif isinstance(gpus[0], int):\n                gpus  = [RO(index=i, occupation=1.0)\n                         for i in slot['gpus']]\n            elif isinstance(gpus[0], dict):\n                gpus = list()\n                for ro in slot['gpus']:\n                    i = ro['index']\n                    o = ro['occupation']\n                    gpus.append(RO(index=i, occupation=o))\n            else:\n                gpus  = [RO(index=i, occupation=o)\n                         for i,o in slot['gpus']]\n\n        new_slot = Slot(cores=cores,\n                        gpus=gpus,\n",
+         "            new_slots.append(slot)\n            continue\n\n        cores = to_ros(slot['cores'])\n        gpus  = to_ros(slot['gpus'])\n\n        new_slot = Slot(cores=cores,\n                        gpus=gpus,\n"),
+    ],
 }
 
 SILENT += [dict(name='corpus %s' % k, edits=v) for k, v in sorted(_CORPUS.items())]
@@ -2445,4 +3283,154 @@ SILENT += [
         (_R, _NODE_CONV, "        for kind in ('cores', 'gpus'):\n            vals = from_dict.get(kind)\n            if not vals or isinstance(vals[0], RO):\n                continue\n"
                          "            from_dict[kind] = [RO(index=i, occupation=o)\n                               for i, o in enumerate(vals)]\n"),
         (_R, _NODE_SUPER, _NODE_SUPER.replace("(from_dict)", "(from_dict.copy())"))]),
+]
+
+
+# ------------------------------------------------------------------------------
+# round 4: R19.8 (guard of an alias unit), R19.9 (payload values come from the
+# caller), R19.10 (parts of an entry), R19.11 (kinds converted independently)
+#
+_G_THREADS = "        if self.cpu_threads:\n            self.cores_per_rank = self.cpu_threads\n"
+_R7_TEST   = "            old_val = self.get(old_key)\n            if not old_val:\n                continue\n"
+_R2_TEST   = "            value = self.get(old_name)\n            if not value:\n                continue\n"
+_NEW_TASK  = "        task = {'func'  : serialize_obj(func),\n                'args'  : args,\n                'kwargs': kwargs or {}}"
+_DEC_TASK  = "            task = {'func'  : serialize_obj(f),\n                    'args'  : args,\n                    'kwargs': kwargs}"
+_CORE_PAIRS = "                cores = [RO(index=i, occupation=o)\n                         for i,o in slot['cores']]\n"
+_GPU_PAIRS  = "                gpus  = [RO(index=i, occupation=o)\n                         for i,o in slot['gpus']]\n"
+_CORE_DICTS = "                for ro in slot['cores']:\n                    i = ro['index']\n                    o = ro['occupation']\n"
+_SLOT_GPUS  = "\n            if gpus:\n                if gpus[0].__class__.__name__ == 'dict':\n"
+_NODE_GPUS  = "\n        if gpus:\n            if not isinstance(gpus[0], RO):\n"
+_SLOT_CORES_BLOCK = ("            if cores:\n"
+                     "                # this is much faster than `isinstance`\n"
+                     "                if cores[0].__class__.__name__ == 'dict':\n"
+                     "                    from_dict['cores'] =  [RO(d) for d in cores]\n"
+                     "\n"
+                     "                elif isinstance(cores[0], int):\n"
+                     "                    from_dict['cores'] =  [RO(index=i, occupation=BUSY)\n"
+                     "                                                 for i in cores]\n"
+                     "\n")
+_SLOT_GPUS_BLOCK  = ("            if gpus:\n"
+                     "                if gpus[0].__class__.__name__ == 'dict':\n"
+                     "                    from_dict['gpus'] =  [RO(d) for d in gpus]\n"
+                     "\n"
+                     "                elif isinstance(gpus[0], int):\n"
+                     "                    from_dict['gpus'] =  [RO(index=i, occupation=BUSY)\n"
+                     "                                                for i in gpus]\n")
+
+MUTATIONS += [
+    # R19.8
+    dict(name='R19.8 seed C19-g1: cpu_threads only mapped when larger than one', rules=('R19.8',), edits=[
+        (_T, _G_THREADS, _G_THREADS.replace("if self.cpu_threads:", "if self.cpu_threads > 1:"))]),
+    dict(name='R19.8 cpu_processes of one is skipped (`and != 1`)', rules=('R19.8',), edits=[
+        (_T, "        if self.cpu_processes:\n", "        if self.cpu_processes and self.cpu_processes != 1:\n")]),
+    dict(name='R19.8 scheduler block runs for the default (is not None)', rules=('R19.8',), edits=[
+        (_T, "        if self.scheduler:\n", "        if self.scheduler is not None:\n")]),
+    dict(name='R19.8 cpu_thread_type block runs again for its reset value None', rules=('R19.8',), edits=[
+        (_T, "        if self.cpu_thread_type:\n", "        if self.cpu_thread_type != '':\n")]),
+    dict(name='R19.8 mem_per_process only mapped from 2 on (>= 2, constant on the left)', rules=('R19.8',), edits=[
+        (_T, "        if self.mem_per_process:\n", "        if 2 <= self.mem_per_process:\n")]),
+    dict(name='R19.8 corpus C19-r7, table loop skips the value one', rules=('R19.8',), edits=_CORPUS['C19-r7'] + [
+        (_T, _R7_TEST, _R7_TEST.replace("if not old_val:", "if not old_val or old_val == 1:"))]),
+    dict(name='R19.8 corpus C19-r2, table loop tests `is None`', rules=('R19.8',), edits=_CORPUS['C19-r2'] + [
+        (_T, _R2_TEST, _R2_TEST.replace("if not value:", "if value is None:"))]),
+    # R19.9
+    dict(name='R19.9 seed C19-g5: kwargs and {}', rules=('R19.9',), edits=[
+        (_Y, "                'kwargs': kwargs or {}}", "                'kwargs': kwargs and {}}")]),
+    dict(name='R19.9 seed C19-g6: the wrapper serialises itself', rules=('R19.9',), edits=[
+        (_Y, "            task = {'func'  : serialize_obj(f),", "            task = {'func'  : serialize_obj(decor),")]),
+    dict(name='R19.9 decorator stores empty kwargs', rules=('R19.9',), edits=[
+        (_Y, _DEC_TASK, _DEC_TASK.replace("'kwargs': kwargs}", "'kwargs': {}}"))]),
+    dict(name='R19.9 __new__ stores args only when they are empty (inverted conditional)', rules=('R19.9',), edits=[
+        (_Y, _NEW_TASK, _NEW_TASK.replace("'args'  : args,", "'args'  : () if args else args,"))]),
+    dict(name='R19.9 __new__ takes args from kwargs', rules=('R19.9',), edits=[
+        (_Y, _NEW_TASK, _NEW_TASK.replace("'args'  : args,", "'args'  : kwargs or (),"))]),
+    dict(name='R19.9 __new__ serialises the class instead of the function', rules=('R19.9',), edits=[
+        (_Y, _NEW_TASK, _NEW_TASK.replace("serialize_obj(func)", "serialize_obj(cls)"))]),
+    dict(name='R19.9 corpus C19-r4, decorator hands the wrapper to the helper', rules=('R19.9',), edits=_CORPUS['C19-r4'] + [
+        (_Y, "            return _encode_call(f, args, kwargs)", "            return _encode_call(decor, args, kwargs)")]),
+    # R19.10
+    dict(name='R19.10 seed C19-g3: core pairs unpacked the wrong way round', rules=('R19.10',), edits=[
+        (_M, _CORE_PAIRS, _CORE_PAIRS.replace("for i,o in", "for o,i in"))]),
+    dict(name='R19.10 gpu pairs unpacked the wrong way round', rules=('R19.10',), edits=[
+        (_M, _GPU_PAIRS, _GPU_PAIRS.replace("for i,o in", "for o,i in"))]),
+    dict(name='R19.10 core pairs taken apart by position, exchanged', rules=('R19.10',), edits=[
+        (_M, _CORE_PAIRS, "                cores = [RO(index=p[1], occupation=p[0])\n                         for p in slot['cores']]\n")]),
+    dict(name='R19.10 dict-form cores: index read from occupation', rules=('R19.10',), edits=[
+        (_M, _CORE_DICTS, _CORE_DICTS.replace("i = ro['index']", "i = ro['occupation']").replace("o = ro['occupation']", "o = ro['index']"))]),
+    dict(name='R19.10 old format built from the occupation', rules=('R19.10',), edits=[
+        (_M, "                cores = [[ro.index] for ro in cores]", "                cores = [[ro.occupation] for ro in cores]")]),
+    dict(name='R19.10 corpus C19-r8, nested helper unpacks pairs the wrong way round', rules=('R19.10',), edits=_CORPUS['C19-r8'] + [
+        (_M, "        return [RO(index=i, occupation=o) for i,o in resources]", "        return [RO(index=i, occupation=o) for o,i in resources]")]),
+    dict(name='R19.5 corpus C19-r8, nested helper builds ROs without occupation', rules=('R19.5',), edits=_CORPUS['C19-r8'] + [
+        (_M, "            return [RO(index=i, occupation=1.0) for i in resources]", "            return [RO(index=i) for i in resources]")]),
+    # R19.11
+    dict(name='R19.11 seed C19-g4: Slot.__init__ converts gpus only without cores (elif)', rules=('R19.11',), edits=[
+        (_R, _SLOT_GPUS, _SLOT_GPUS.replace("            if gpus:", "            elif gpus:"))]),
+    dict(name='R19.11 Node.__init__ converts gpus only without cores (elif)', rules=('R19.11',), edits=[
+        (_R, _NODE_GPUS, _NODE_GPUS.replace("        if gpus:", "        elif gpus:"))]),
+    dict(name='R19.11 Slot.__init__ converts gpus only when there are cores (nested)', rules=('R19.11',), edits=[
+        (_R, _SLOT_GPUS, _SLOT_GPUS.replace("            if gpus:", "            if gpus and cores:"))]),
+    dict(name='R19.11 Slot.__init__ skips the gpus when cores are set (`and not`)', rules=('R19.11',), edits=[
+        (_R, _SLOT_GPUS, _SLOT_GPUS.replace("            if gpus:", "            if gpus and not from_dict.get('cores'):"))]),
+    dict(name='R19.11 corpus C19-r4, loop over the kinds stops at an empty kind', rules=('R19.11',), edits=_CORPUS['C19-r4'] + [
+        (_R, "                if not resources:\n                    continue\n", "                if not resources:\n                    break\n")]),
+]
+
+SILENT += [
+    # R19.8
+    dict(name='alias guard spelled > 0', edits=[
+        (_T, "        if self.cpu_threads:\n", "        if self.cpu_threads > 0:\n")]),
+    dict(name='alias guard spelled != 0 with the constant on the left', edits=[
+        (_T, "        if self.cpu_processes:\n", "        if 0 != self.cpu_processes:\n")]),
+    dict(name='alias guard spelled `is not None and`', edits=[
+        (_T, "        if self.cpu_thread_type:\n", "        if self.cpu_thread_type is not None and self.cpu_thread_type != '':\n")]),
+    dict(name='alias guard spelled bool()', edits=[
+        (_T, "        if self.mem_per_process:\n", "        if bool(self.mem_per_process):\n")]),
+    dict(name='alias guard spelled len() > 0', edits=[
+        (_T, "        if self.worker_file:\n", "        if len(self.worker_file or '') > 0:\n")]),
+    dict(name='corpus C19-r7 with the table test spelled as a comparison', edits=_CORPUS['C19-r7'] + [
+        (_T, _R7_TEST, _R7_TEST.replace("if not old_val:", "if old_val is None or not old_val:"))]),
+    # R19.9
+    dict(name='kwargs default as a conditional expression', edits=[
+        (_Y, "                'kwargs': kwargs or {}}", "                'kwargs': kwargs if kwargs else {}}")]),
+    dict(name='kwargs copied when set (and/or idiom)', edits=[
+        (_Y, "                'kwargs': kwargs or {}}", "                'kwargs': kwargs and dict(kwargs) or {}}")]),
+    dict(name='kwargs default with the negated conditional expression', edits=[
+        (_Y, "                'kwargs': kwargs or {}}", "                'kwargs': {} if not kwargs else kwargs}")]),
+    dict(name='decorator serialises the function through a local alias', edits=[
+        (_Y, "            task = {'func'  : serialize_obj(f),", "            fn   = f\n            task = {'func'  : serialize_obj(fn),")]),
+    dict(name='decorator copies args and kwargs into fresh containers', edits=[
+        (_Y, _DEC_TASK, _DEC_TASK.replace("'args'  : args,", "'args'  : tuple(args),").replace("'kwargs': kwargs}", "'kwargs': dict(kwargs)}"))]),
+    # R19.10
+    dict(name='pair components renamed', edits=[
+        (_M, _CORE_PAIRS, "                cores = [RO(index=idx, occupation=occ)\n                         for idx, occ in slot['cores']]\n")]),
+    dict(name='pair taken apart by position', edits=[
+        (_M, _CORE_PAIRS, "                cores = [RO(index=p[0], occupation=p[1])\n                         for p in slot['cores']]\n")]),
+    dict(name='RO keywords in the other order', edits=[
+        (_M, _GPU_PAIRS, "                gpus  = [RO(occupation=o, index=i)\n                         for i,o in slot['gpus']]\n")]),
+    dict(name='pairs converted by a loop which unpacks in its body', edits=[
+        (_M, _CORE_PAIRS, "                cores = list()\n                for pair in slot['cores']:\n                    i, o = pair\n                    cores.append(RO(index=i, occupation=o))\n")]),
+    dict(name='dict-form cores read with get()', edits=[
+        (_M, _CORE_DICTS, _CORE_DICTS.replace("i = ro['index']", "i = ro.get('index')"))]),
+    dict(name='old format built by an append loop', edits=[
+        (_M, "                cores = [[ro.index] for ro in cores]", "                done = list()\n                for ro in cores:\n                    done.append([ro.index])\n                cores = done")]),
+    # R19.11
+    dict(name='Slot.__init__ converts the gpus first', edits=[
+        (_R, _SLOT_CORES_BLOCK + _SLOT_GPUS_BLOCK, _SLOT_GPUS_BLOCK + "\n" + _SLOT_CORES_BLOCK.rstrip('\n') + "\n")]),
+    dict(name='Slot.__init__ tests presence and form of the gpus in one condition', edits=[
+        (_R, _SLOT_GPUS_BLOCK,
+             "            if gpus and gpus[0].__class__.__name__ == 'dict':\n"
+             "                from_dict['gpus'] =  [RO(d) for d in gpus]\n"
+             "\n"
+             "            elif gpus and isinstance(gpus[0], int):\n"
+             "                from_dict['gpus'] =  [RO(index=i, occupation=BUSY)\n"
+             "                                            for i in gpus]\n")]),
+    dict(name='Slot.__init__ enters the conversion only when one of the kinds is set', edits=[
+        (_R, "        if from_dict:\n\n            cores = from_dict.get('cores')\n",
+             "        if from_dict and (from_dict.get('cores') or from_dict.get('gpus')):\n\n            cores = from_dict.get('cores')\n")]),
+    dict(name='Slot.__init__ reads the gpus right before their conversion, `is None` guard first', edits=[
+        (_R, "            gpus  = from_dict.get('gpus')\n\n", "\n"),
+        (_R, "            if gpus:\n                if gpus[0].__class__", "            gpus = from_dict.get('gpus')\n            if gpus is not None and gpus:\n                if gpus[0].__class__")]),
+    dict(name='Node.__init__ merges presence and type test of the gpus', edits=[
+        (_R, _NODE_GPUS, "\n        if gpus and not isinstance(gpus[0], RO):\n            if True:\n")]),
 ]
